@@ -181,6 +181,11 @@ func (e *c09Env) observe() {
 	e.emit("list", "ok "+l)
 	dn, _ := e.str.DueNext()
 	e.emit("due", dn.String())
+	if fileExistsC09(e.str.fullNeededPath) {
+		e.emit("flag", "set")
+	} else {
+		e.emit("flag", "clear")
+	}
 	ents, _ := os.ReadDir(e.dir)
 	var ls []string
 	type nn struct {
@@ -408,6 +413,10 @@ func TestVerifC09(t *testing.T) {
 								sig += ":set-between-header-and-close"
 							}
 							rep.Fail(sig, fmt.Sprintf("history %v: Close installed an incremental snapshot while FULL_NEEDED was set; FULL_NEEDED afterwards: %v", e.hist, fileExistsC09(e.str.fullNeededPath)),
+								map[string]interface{}{"history": e.hist})
+						}
+						if walDir == "" && setBetween && fnBefore && !fileExistsC09(e.str.fullNeededPath) {
+							rep.Fail("requirement-raised-after-capture-cleared-by-full-close", fmt.Sprintf("history %v: SetDueNext(Full) was called after the sink of this full snapshot had been created, and its Close cleared FULL_NEEDED", e.hist),
 								map[string]interface{}{"history": e.hist})
 						}
 						if accepted {
